@@ -129,7 +129,10 @@ func rebase(ref *Ref, v *url.URL, notEqual bool) (Ref, bool) {
 
 	newBase.Fragment = u.Fragment
 
-	if strings.HasPrefix(u.Path, docPath) {
+	// the path of the base document must match up to a path boundary
+	// (a mere string prefix would take "doc.jsonx" or "doc.json.d/x.json" for "doc.json")
+	if strings.HasPrefix(u.Path, docPath) &&
+		(len(u.Path) == len(docPath) || strings.HasSuffix(docPath, "/") || u.Path[len(docPath)] == '/') {
 		newBase.Path = strings.TrimPrefix(u.Path, docPath)
 	} else {
 		newBase.Path = strings.TrimPrefix(u.Path, v.Path)
